@@ -243,16 +243,21 @@ func TestVerif_C12_DerivePublic(t *testing.T) {
 
 func TestVerif_C12_CheckOnCurve(t *testing.T) {
 	rec := stats.Get("C12", "checkoncurve")
-	rec.Rule("rapid: coordinate pairs: on-curve points ([m]G, points with tiny x), (x,p-y), off-curve by one bit or +1, x+p / y>=p non-canonical encodings, (0,0), (p,..), wrong lengths 0..40, uniform. Oracle: CheckOnCurve(x,y) iff both are 32 bytes, both values < p and y^2 = x^3-3x+b. Non-trivial: everything except uniform garbage; distinct by (x,y).")
+	rec.Rule("rapid: coordinate pairs: on-curve points ([m]G, points with tiny x), (x,p-y), off-curve by one bit or +1, off-curve with y^2 equal to the right-hand side except in part of one 64-bit limb of its plain or Montgomery form (y by square root), x+p / y>=p non-canonical encodings, (0,0), (p,..), wrong lengths 0..40, uniform. Oracle: CheckOnCurve(x,y) iff both are 32 bytes, both values < p and y^2 = x^3-3x+b. Non-trivial: everything except uniform garbage; distinct by (x,y).")
 	t.Cleanup(stats.FlushAll)
 	rapid.Check(t, func(t *rapid.T) {
 		foreignCalls(t, rec, "foreign") // state left behind by other entry points must not matter
 		r := gen.Rand(t, "seed")
 		d, _, _ := sm2gen.PrivKey(t, "d")
 		px, py, _ := sm2gen.Pub(d)
-		cls := gen.Pick(t, "class", "oncurve", "oncurve", "negY", "bitflip", "plus1", "x+p", "y>=p", "zero", "p", "length", "uniform", "tinyx")
+		cls := gen.Pick(t, "class", "oncurve", "oncurve", "negY", "bitflip", "plus1", "x+p", "y>=p", "zero", "p", "length", "uniform", "tinyx", "limb-near-miss", "limb-near-miss")
 		x, y := px, py
 		switch cls {
+		case "limb-near-miss":
+			// off the curve, but y^2 and x^3-3x+b agree except in part of one 64-bit limb (plain or Montgomery form)
+			if yy, ok := sm2gen.NearMissY(t, "nm", new(big.Int).SetBytes(px)); ok {
+				y = gen.Pad32(yy)
+			}
 		case "negY":
 			y = gen.Pad32(new(big.Int).Sub(sm2gen.P, new(big.Int).SetBytes(py)))
 		case "bitflip":
